@@ -22,14 +22,15 @@ from common import REPO, CORPUS
 PROPERTY = "C06"
 RULE = ("schemas: gen/schema.py (sizes 1-3, + subscription root); documents valid by construction (operations, nested "
         "fragments, inline fragments, variables shared between operations through fragments, directives, input objects, "
-        "mergeable duplicate fields); each then gets every applicable one of 29 labelled single-rule violations "
+        "mergeable duplicate fields); each then gets every applicable one of 35 labelled single-rule violations "
         "(26 rule visitors / 26 specification rules) and 7 metamorphic transformations; non-trivial = distinct "
         "(document text) that is either valid with >= 2 definitions or a fragment, or carries a violation")
 ASSUMPTIONS = [
     "documents are produced by the real parser from generated text (validate_ast assumes parser output)",
-    "inputs on which validation RAISES (ledger V1: unknown type condition; V2: list/object/null/variable argument on a "
-    "repeated field; object literal at a custom scalar; recursion on cyclic fragments) are C05's subject: they are "
-    "counted (input_distribution 'skipped:*') and not judged here",
+    "validation is expected to RETURN (C05; ledger V1, V2 and the custom-scalar object literal are fixed in /repo): an input "
+    "on which the real validator raises is reported (`validation-raises:*`), not skipped",
+    "Float literals that overflow to infinity (`1e999`, rejected since commit 761760b) are not generated; the model "
+    "accepts every Float/Int literal at a Float position",
     "type-system definitions inside executable documents are opaque to the model (only their presence matters: "
     "ExecutableDefinitionsChecker skips the whole document)",
 ]
@@ -162,6 +163,14 @@ def order_dependent(world, doc, base):
     return None
 
 
+def raises(ctx, world, text, res, label, feature):
+    """validation must deliver a verdict: a raise is reported (RecursionError on cyclic fragments included)"""
+    ctx.stat("raises:%s@%s" % (res["outcome"], label))
+    ctx.fail("validation-%s:%s:%s" % (res["outcome"].replace("raise:", "raises:"), label, feature),
+             "validate_ast raises instead of returning a verdict",
+             {"kind": "raises", "sdl": world.sdl, "text": text, "label": label, "feature": feature})
+
+
 def check_transforms(ctx, world, doc, base, label, which=None, feature=""):
     """verdict of `doc` (already computed: `base`) must not change under the metamorphic transformations"""
     from gen import valid_ops as vo
@@ -182,9 +191,10 @@ def check_transforms(ctx, world, doc, base, label, which=None, feature=""):
         ctx.stat("transform:" + name)
         out.append((name, doc2, text2, res))
         if res["outcome"].startswith("raise") or res["outcome"].startswith("noparse"):
-            ctx.stat("skipped:%s after %s" % (res["outcome"], name))
             if res["outcome"].startswith("noparse"):
                 ctx.fail("harness:noparse:" + name, "generated text does not parse", {"text": text2}, kind="correspondence")
+            else:
+                raises(ctx, world, text2, res, label, feature)
             continue
         if res["outcome"] != base["outcome"]:
             bad = res if res["outcome"] == "errors" else base
@@ -210,9 +220,10 @@ def one_document(ctx, world, size, collect):
         ctx.nontrivial(("valid", text))
     collect.append((world, text, base, "valid", ""))
     if base["outcome"].startswith("raise") or base["outcome"].startswith("noparse"):
-        ctx.stat("skipped:" + base["outcome"])
         if base["outcome"].startswith("noparse"):
             ctx.fail("harness:noparse:valid", "generated text does not parse", {"text": text}, kind="correspondence")
+        else:
+            raises(ctx, world, text, base, "valid", "")
         return
     pub = real_verdict(world.schema, text)
     if pub != base["outcome"]:
@@ -231,6 +242,8 @@ def one_document(ctx, world, size, collect):
     # ---- single labelled violations ----
     injected = []
     for label, section, expected, fn in vi.INJECTORS:
+        if ctx.tier == "quick" and ctx.out_of_time():
+            break
         r = fn(rng, world.sv, doc)
         if r is None:
             ctx.stat("inject-n/a:" + label)
@@ -246,9 +259,9 @@ def one_document(ctx, world, size, collect):
             ctx.fail("harness:noparse:" + label, "generated text does not parse", {"text": text2}, kind="correspondence")
             continue
         if res["outcome"].startswith("raise"):
-            ctx.stat("skipped:%s@%s" % (res["outcome"], label))
+            raises(ctx, world, text2, res, label, feature)
             continue
-        injected.append((label, feature, doc2))
+        injected.append((label, feature, doc2, fn))
         detail = {"kind": "violation", "sdl": world.sdl, "text": text2, "label": label, "section": section,
                   "feature": feature, "expected_rules": expected, "rules": reporting(res), "valid_text": text}
         if res["outcome"] == "ok":
@@ -263,8 +276,7 @@ def one_document(ctx, world, size, collect):
         check_transforms(ctx, world, doc2, res, label, which=rng.sample(names, 2 if ctx.tier == "quick" else 4), feature=feature)
     # ---- two violations: verdict only ----
     if len(injected) >= 2:
-        (l1, f1, d1), (l2, f2, _) = rng.sample(injected, 2)
-        fn2 = dict((l, f) for l, _, _, f in vi.INJECTORS)[l2]
+        (l1, f1, d1, _), (l2, f2, _, fn2) = rng.sample(injected, 2)
         r = fn2(rng, world.sv, d1)
         if r is not None:
             doc3 = r[0]
@@ -300,7 +312,10 @@ def run_corpus(ctx, collect):
             res = real_chain(schema, case["text"])
             collect.append((w, case["text"], res, "corpus:" + case.get("id", ""), ""))
             exp = case.get("spec_valid")
-            if exp is None or res["outcome"].startswith("raise"):
+            if res["outcome"].startswith("raise"):
+                raises(ctx, w, case["text"], res, "corpus:" + case.get("id", ""), "")
+                continue
+            if exp is None:
                 continue
             ctx.nontrivial(("corpus", case["text"]))
             if exp and res["outcome"] != "ok":
@@ -382,6 +397,8 @@ def replay(ctx, data):
             return res["outcome"] != "ok"
         exp = inp.get("expected_rules") or []
         return (not exp) or bool(set(exp) & set(reporting(res)))
+    if kind == "raises":
+        return not real_verdict(schema, inp["text"]).startswith("raise")
     if kind == "transform":
         a, b = real_verdict(schema, inp["text"]), real_verdict(schema, inp["text2"])
         return a == b or a.startswith("raise") or b.startswith("raise")
